@@ -167,15 +167,19 @@ theorem range_writable (m : MapDecl) (a b : Nat) (h : (m.rightOfRange a b).isWri
 /-! ### The system module's event handler keeps the memory image -/
 
 /-- image of the `InterfaceID` string register -/
-def ID_IMAGE : Bytes := padTo 64 INTERFACE_ID
+def ID_IMAGE (env : Env) : Bytes := padTo 64 env.ifc.id
 
-/-- The `InterfaceID` register (1036..1100) holds the id of the only interface. -/
-def IdOk (mem : Bytes) : Prop := (mem.drop 1036).take 64 = ID_IMAGE
+/-- The interface id fits its 64-byte register (otherwise `SystemModule::new` panics) and the
+`InterfaceID` register (1036..1100) holds it. -/
+def IdOk (env : Env) (mem : Bytes) : Prop :=
+  env.ifc.id.length ≤ 64 ∧ (mem.drop 1036).take 64 = ID_IMAGE env
 
-theorem ID_IMAGE_length : ID_IMAGE.length = 64 := by decide
+theorem ID_IMAGE_length (env : Env) (h : env.ifc.id.length ≤ 64) : (ID_IMAGE env).length = 64 := by
+  simp [ID_IMAGE, padTo, zeros, List.length_append]
+  omega
 
-theorem sysSelectorChange_cases (mem : Bytes) (hl : 1100 ≤ mem.length) (hid : IdOk mem) :
-    sysSelectorChange mem = .err .invalidIndex ∨ sysSelectorChange mem = .ok mem := by
+theorem sysSelectorChange_cases (env : Env) (mem : Bytes) (hl : 1100 ≤ mem.length) (hid : IdOk env mem) :
+    sysSelectorChange env mem = .err .invalidIndex ∨ sysSelectorChange env mem = .ok mem := by
   unfold sysSelectorChange
   rw [slice_eq_ok (by omega) (by omega)]
   simp only
@@ -183,19 +187,21 @@ theorem sysSelectorChange_cases (mem : Bytes) (hl : 1100 ≤ mem.length) (hid : 
   · left; simp [h]
   · right
     rw [if_neg h]
-    have hlen : (padTo 64 INTERFACE_ID).length = 64 := ID_IMAGE_length
+    have hlen : (padTo 64 env.ifc.id).length = 64 := ID_IMAGE_length env hid.1
     rw [splice_eq_ok (by rw [hlen]; omega), hlen]
-    have e : padTo 64 INTERFACE_ID = (mem.drop 1036).take 64 := hid.symm
+    have e : padTo 64 env.ifc.id = (mem.drop 1036).take 64 := hid.2.symm
     rw [e, splice_self mem 1036 64 (by omega)]
 
-theorem sysHandleEvents_spec (mem : Bytes) (q : List Event) (hl : 1100 ≤ mem.length) (hid : IdOk mem) :
-    ∃ q', sysHandleEvents mem q = (mem, q', .ok ()) ∨ sysHandleEvents mem q = (mem, q', .err .invalidIndex) := by
+theorem sysHandleEvents_spec (env : Env) (mem : Bytes) (q : List Event) (hl : 1100 ≤ mem.length)
+    (hid : IdOk env mem) :
+    ∃ q', sysHandleEvents env mem q = (mem, q', .ok ()) ∨
+      sysHandleEvents env mem q = (mem, q', .err .invalidIndex) := by
   induction q with
   | nil => exact ⟨[], Or.inl rfl⟩
   | cons ev q ih =>
     cases ev with
     | interfaceSelector =>
-      rcases sysSelectorChange_cases mem hl hid with h | h
+      rcases sysSelectorChange_cases env mem hl hid with h | h
       · exact ⟨q, Or.inr (by simp [sysHandleEvents, h])⟩
       · obtain ⟨q', hq⟩ := ih
         exact ⟨q', by simpa [sysHandleEvents, h] using hq⟩
@@ -227,19 +233,19 @@ theorem drop_splice (mem data : Bytes) (a k : Nat) (h : a + data.length ≤ k)
   omega
 
 /-- a successful system write cannot touch the `InterfaceID` register -/
-theorem IdOk_splice (env : Env) (mem data : Bytes) (a : Nat) (hid : IdOk mem)
+theorem IdOk_splice (env : Env) (mem data : Bytes) (a : Nat) (hid : IdOk env mem)
     (hl : a + data.length ≤ mem.length)
     (hw : ((sysMap env).rightOfRange a (a + data.length)).isWritable = true) :
-    IdOk (mem.take a ++ data ++ mem.drop (a + data.length)) := by
-  unfold IdOk
+    IdOk env (mem.take a ++ data ++ mem.drop (a + data.length)) := by
+  refine ⟨hid.1, ?_⟩
   by_cases h0 : data.length = 0
   · have : data = [] := List.eq_nil_of_length_eq_zero h0
     subst this
-    simpa [IdOk] using hid
+    simpa using hid.2
   · have hlast := range_writable _ _ _ hw (a + data.length - 1) (by omega) (by omega)
     have := sys_writable_at env _ hlast
     rw [drop_splice mem data a 1036 (by omega) hl]
-    exact hid
+    exact hid.2
 
 /-! ### Port writes -/
 
@@ -248,7 +254,7 @@ def stored (mem : Bytes) (a : Nat) (data : Bytes) : Bytes :=
   mem.take a ++ data ++ mem.drop (a + data.length)
 
 theorem sysWrite_cases (env : Env) (s : State) (address : Nat) (data : Bytes)
-    (hl : 1100 ≤ s.sysMem.length) (hid : IdOk s.sysMem) :
+    (hl : 1100 ≤ s.sysMem.length) (hid : IdOk env s.sysMem) :
     sysWrite env s address data = (s, .err .invalidAddress) ∨
     sysWrite env s address data = (s, .err .accessDenied) ∨
     (∃ q' r, sysWrite env s address data =
@@ -266,8 +272,8 @@ theorem sysWrite_cases (env : Env) (s : State) (address : Nat) (data : Bytes)
       rw [h]
       have hl' : 1100 ≤ (stored s.sysMem (asUsize address) data).length := by
         unfold stored; rw [splice_length h2]; exact hl
-      have hid' : IdOk (stored s.sysMem (asUsize address) data) := IdOk_splice env _ _ _ hid h2 hw
-      obtain ⟨q', hq | hq⟩ := sysHandleEvents_spec _ (s.sysQueue ++ fired (sysMap env) (asUsize address) (asUsize address + data.length)) hl' hid'
+      have hid' : IdOk env (stored s.sysMem (asUsize address) data) := IdOk_splice env _ _ _ hid h2 hw
+      obtain ⟨q', hq | hq⟩ := sysHandleEvents_spec env _ (s.sysQueue ++ fired (sysMap env) (asUsize address) (asUsize address + data.length)) hl' hid'
       · refine ⟨q', .ok data.length, ?_, Or.inl rfl, h2, hw⟩
         simp only [stored] at hq ⊢
         rw [hq]
@@ -416,7 +422,7 @@ theorem Err.code_neg (e : Err) : e.code < 0 := by
 structure WF (env : Env) (s : State) : Prop where
   sysLen : s.sysMem.length = SYS_XML_ADDRESS + env.sysXml.length
   ifLen : s.ifMem.length = IF_XML_ADDRESS + env.ifXml.length
-  idOk : IdOk s.sysMem
+  idOk : IdOk env s.sysMem
 
 theorem WF.sys1100 {env : Env} {s : State} (h : WF env s) : 1100 ≤ s.sysMem.length := by
   have := h.sysLen
